@@ -224,6 +224,7 @@ pub fn run(args: &Args) -> Report {
                 Some(s) => format!("signal {}", s),
                 None => format!("exit status {:?} ({})", out.status.code(), stderr.lines().filter(|l| l.contains("panicked")).last().unwrap_or("")),
             };
+            rep.case(true);
             rep.fail(Fail {
                 key: format!("guard:died:{}", last_case),
                 what: format!("the sweep process (shard {}) died of {} while in {}", k, how, &last_case[5..]),
